@@ -9,7 +9,8 @@ this translator (exit 1 -> common.regenerate() poisons coq/gen/ParseGen.v) or br
 
 TRANSLATED (table SIGS): parserinfo.jump weekday month hms ampm pertain utczone tzoffset convertyear;
   _ymd.has_year has_month has_day could_be_day; parser._could_be_tzname _ampm_valid _adjust_ampm
-  _find_hms_idx _parse_hms _parse_min_sec _parsems _assign_hms; parserinfo.validate; _ymd.resolve_ymd.
+  _find_hms_idx _parse_hms _parse_min_sec _parsems _assign_hms _parse_numeric_token; parserinfo.validate;
+  _ymd.resolve_ymd, _ymd.append (three specialisations by the type of `val`).
 NOT translated: the rest of the classes _timelex, _resultbase, parserinfo, _ymd, parser and the module function
   parse() -- hand-modelled (Lex.v, Ymd.v, Parse.v, Build.v), tied by the differential runs of check_C14/15/02, and
   PINNED here by the sha256 of their AST with docstrings and the translated methods removed: any edit of a
@@ -89,6 +90,8 @@ SIGS = {
         "_parse_min_sec": ([("value", DEC, None)], ("tuple", (INT, OPTINT))),
         "_parsems": ([("value", STR, None)], ("tuple", (INT, INT))),
         "_assign_hms": ([("res", RES, None), ("value_repr", STR, None), ("hms", INT, None)], "unit"),
+        "_parse_numeric_token": ([("tokens", TOKENS, None), ("idx", INT, None), ("info", None, None), ("ymd", YMD, None),
+                                  ("res", RES, None), ("fuzzy", BOOL, None)], INT),
         "_find_hms_idx": ([("idx", INT, None), ("tokens", TOKENS, None), ("info", None, None),
                            ("allow_jump", BOOL, None)], OPTINT),
         "_parse_hms": ([("idx", INT, None), ("tokens", TOKENS, None), ("info", None, None),
@@ -100,13 +103,12 @@ ORDER = [("parserinfo", n) for n in ("jump", "weekday", "month", "hms", "ampm", 
         [("_ymd", n) for n in ("has_year", "has_month", "has_day", "could_be_day", "resolve_ymd", "append_str",
                                  "append_dec", "append_int")] + \
         [("parser", n) for n in ("_could_be_tzname", "_ampm_valid", "_adjust_ampm", "_parse_min_sec", "_parsems",
-                                 "_assign_hms", "_find_hms_idx", "_parse_hms")]
+                                 "_assign_hms", "_find_hms_idx", "_parse_hms", "_parse_numeric_token")]
 # functions that mutate a parameter object: the final object is returned next to the return value
 MUTATES = {("parserinfo", "validate"): ("res",), ("parser", "_assign_hms"): ("res",), ("_ymd", "append_str"): ("self",),
            ("_ymd", "append_dec"): ("self",), ("_ymd", "append_int"): ("self",),
-           }   # (the statement / call forms needed for _parse_numeric_token are implemented: adding it to SIGS / ORDER /
-               #  MUTATES[("parser", "_parse_numeric_token")] = ("ymd", "res") translates it to 280 lines; its equality with
-               #  Parse.parse_numeric was not proved in the time available, so it stays hand-modelled and pinned)
+           ("parser", "_parse_numeric_token"): ("ymd", "res"),
+           }
 
 
 def muts(fn):
@@ -135,7 +137,7 @@ CENTURY_SRC = "self._century = self._year // 100 * 100"
 
 PINNED = {
     "_timelex": "822a33f7e4cc034e", "_resultbase": "2d4d8d1e6f1e001a", "parserinfo": "fbe4db72d8fdc831", "_ymd": "f62360ff133b7a8d",
-    "parser": "2ef0d6b2a2a8afc9", "parse": "7dc82e5e7dbcf2df",
+    "parser": "7179ca69e7384db6", "parse": "7dc82e5e7dbcf2df",
 }
 
 
